@@ -297,43 +297,39 @@ namespace smt
 
     SMT_EXPORT std::pair<I, I> idl_theory::bounds(const lin &l) const
     {
-        I c_lb(0);
-        I c_ub(0);
+        // the bounds of 'c * e + k', given the bounds 'bs' of 'e' (infinite bounds remain infinite, a negative 'c' swaps them)..
+        const auto scale = [](const std::pair<I, I> &bs, const I &c, const I &k)
+        {
+            const auto scl = [&c, &k](const I &b)
+            { return (b == inf() || b == -inf()) ? (((b > 0) == (c > 0)) ? inf() : -inf()) : b * c + k; };
+            return c > 0 ? std::make_pair(scl(bs.first), scl(bs.second)) : std::make_pair(scl(bs.second), scl(bs.first));
+        };
 
         switch (l.vars.size())
         {
         case 0:
             if (!is_integer(l.known_term))
                 throw std::invalid_argument("not a valid integer difference logic constraint..");
-            c_lb += l.known_term.numerator();
-            c_ub += l.known_term.numerator();
-            break;
+            return std::make_pair(l.known_term.numerator(), l.known_term.numerator());
         case 1:
         {
             auto it = l.vars.cbegin();
             if (!is_integer(it->second) | !is_integer(l.known_term))
                 throw std::invalid_argument("not a valid integer difference logic constraint..");
-            c_lb += lb(it->first) * it->second.numerator() + l.known_term.numerator();
-            c_ub += ub(it->first) * it->second.numerator() + l.known_term.numerator();
-            break;
+            return scale(bounds(it->first), it->second.numerator(), l.known_term.numerator());
         }
         case 2:
-        {
-            const auto expr = l / l.vars.cbegin()->second;
-            auto it = expr.vars.cbegin();
-            [[maybe_unused]] const auto [v0, c0] = *it++;
+        { // the expression must have the form 'c * (v0 - v1) + k'..
+            auto it = l.vars.cbegin();
+            const auto [v0, c0] = *it++;
             const auto [v1, c1] = *it;
-            if (!is_integer(c1) || c1.numerator() != -1 || !is_integer(l.known_term))
+            if (c1 != -c0 || !is_integer(c0) || !is_integer(l.known_term))
                 throw std::invalid_argument("not a valid integer difference logic expression..");
-            const auto dist = distance(v1, v0);
-            c_lb += dist.first + expr.known_term.numerator();
-            c_ub += dist.second + expr.known_term.numerator();
-            break;
+            return scale(distance(v1, v0), c0.numerator(), l.known_term.numerator());
         }
         default:
             throw std::invalid_argument("not a valid integer difference logic expression..");
         }
-        return std::make_pair(c_lb, c_ub);
     }
 
     SMT_EXPORT std::pair<I, I> idl_theory::distance(const lin &from, const lin &to) const
